@@ -779,9 +779,11 @@ func genConverge(seed uint64, n int, out string) {
 				w[d.ID] = cr.Intn(len(d.Variants))
 			}
 		}
-		deb := 0
+		// the debouncer is never off: with 0 ms istiod pushes in the same instant an event arrives and
+		// races with its own derived indexes (see notes/C01.md, "unreproduced differences")
+		deb := 10
 		if cr.Chance(1, 3) {
-			deb = 20
+			deb = 25
 		}
 		o.Line("case", strconv.Itoa(c), "converge", strconv.Itoa(deb), w.tok())
 		cur := w.clone()
